@@ -479,16 +479,70 @@ func TestC19(t *testing.T) {
 				s.Ping(packet.Addr{MAC: hw(w.Clients[0]), IP: netip.MustParseAddr("fe80::aa")}, time.Second)
 			}
 		}
+		// six pings across the wrap-around, all pending at the same time ("concurrent pings use distinct identifiers"):
+		// each is started once the previous one's request was seen, none is answered before all six are out
 		var seen []int
+		var dones []chan error
 		for k := 0; k < 6; k++ {
-			id, err := one()
+			conn.Take()
+			done := make(chan error, 1)
+			dones = append(dones, done)
+			go func() {
+				if c.V6 {
+					done <- s.Ping6(packet.Addr{MAC: hw(w.HostMAC), IP: w.HostLLA}, packet.Addr{MAC: hw(w.Clients[0]), IP: netip.MustParseAddr("fe80::aa")}, 5*time.Second)
+				} else {
+					done <- s.Ping(packet.Addr{MAC: hw(w.Clients[0]), IP: netip.MustParseAddr("192.168.0.5")}, 5*time.Second)
+				}
+			}()
+			id := -1
+			deadline := time.Now().Add(900 * time.Millisecond)
+			for id < 0 && time.Now().Before(deadline) {
+				for _, f := range conn.Take() {
+					d := ref.Decode(f.B)
+					if (d.PayloadID == ref.PICMP4 || d.PayloadID == ref.PICMP6) && d.OffPayload+8 <= len(f.B) && (f.B[d.OffPayload] == 8 || f.B[d.OffPayload] == 128) {
+						id = int(f.B[d.OffPayload+4])<<8 | int(f.B[d.OffPayload+5])
+					}
+				}
+				if id < 0 {
+					time.Sleep(200 * time.Microsecond)
+				}
+			}
 			if id < 0 {
 				rec.Class("inconclusive: echo request not seen in time")
+				for _, d := range dones {
+					<-d
+				}
 				return
 			}
 			seen = append(seen, id)
+		}
+		dup := false
+		for i := range seen {
+			for j := 0; j < i; j++ {
+				if seen[i] == seen[j] {
+					dup = true
+				}
+			}
+		}
+		for _, id := range seen {
+			reply := byte(0)
+			if c.V6 {
+				reply = 129
+			}
+			buf := make([]byte, packet.EthMaxSize)
+			s.Parse(buf[:copy(buf, echoFrame(w, c.V6, reply, uint16(id)))])
+		}
+		var errs []error
+		for _, d := range dones {
+			errs = append(errs, <-d)
+		}
+		if dup {
+			rec.Violation(tb, "wraparound", "c19-identifier-shared", c, "six pings pending at the same time across the wrap-around use the identifiers %v (outcomes %v)", seen, errs)
+			return
+		}
+		for k, err := range errs {
 			if err != nil {
-				rec.Violation(tb, "wraparound", "c19-matching-reply-ignored", c, "ping with identifier %d (identifiers around the wrap-around so far %v) got its reply at once but returned %v", id, seen, err)
+				rec.Violation(tb, "wraparound", "c19-matching-reply-ignored", c, "ping with identifier %d (six pending pings around the wrap-around: %v) got its reply within its 5 s but returned %v", seen[k], seen, err)
 				return
 			}
 		}
